@@ -23,7 +23,25 @@ def ref_escape(s):
     return ''.join(out)
 
 
+class Broken:
+    """stands in for a template of the fixed harness set that the code under test fails to compile: every use raises, so the
+    obligations that need it report a violation (replayed) instead of the whole harness failing to import"""
+
+    def __init__(self, src, exc):
+        self.src, self.exc = src, exc
+        self._v_blocks = []
+
+    def __call__(self, *a, **k):
+        raise RuntimeError('template %r does not compile: %s: %s' % (self.src, type(self.exc).__name__, self.exc))
+
+    def cook(self):
+        raise RuntimeError('template %r does not compile: %s' % (self.src, self.exc))
+
+
 def cooked(src, cls=HTML, **kw):
     t = cls(src, **kw)
-    t.cook()
+    try:
+        t.cook()
+    except Exception as e:            # noqa: B902
+        return Broken(src, e)
     return t
